@@ -58,6 +58,15 @@ pub fn which_bin() -> Bin {
 }
 
 fn bin_path(bin: Bin) -> PathBuf {
+    // <target>/<profile>/nsverif -> sibling profile directory of the running binary
+    if let Ok(exe) = std::env::current_exe()
+        && let Some(target) = exe.parent().and_then(Path::parent)
+    {
+        let p = target.join(bin.dir()).join("nsverif");
+        if p.exists() {
+            return p;
+        }
+    }
     verif_root().join("target").join("harness").join(bin.dir()).join("nsverif")
 }
 
